@@ -600,7 +600,38 @@ func TestVerif_C26(t *testing.T) {
 		var enc []byte
 		var size int
 		var class, detail string
-		msg, stack, p := kit.Guard(func() { enc, size, class, detail = c26RoundTrip(dec, r, i%50 == 0) })
+		// The decoder runs on its own encoder's output here, in the parent: with an encoder
+		// that writes something else than the decoder reads this is a hostile decode, which
+		// may not return. The round trip runs in a goroutine; when it has not returned after
+		// 20 s (a decode of this size takes milliseconds) or has allocated 1 GiB, the
+		// violation is recorded and the check ends there (the goroutine cannot be stopped).
+		var msg, stack string
+		var p bool
+		done := make(chan struct{})
+		go func() {
+			defer close(done)
+			msg, stack, p = kit.Guard(func() { enc, size, class, detail = c26RoundTrip(dec, r, i%50 == 0) })
+		}()
+		var ms0 runtime.MemStats
+		runtime.ReadMemStats(&ms0)
+		t0 := time.Now()
+	wait:
+		for {
+			select {
+			case <-done:
+				break wait
+			case <-time.After(200 * time.Millisecond):
+				var ms runtime.MemStats
+				runtime.ReadMemStats(&ms)
+				if time.Since(t0) > 20*time.Second || ms.TotalAlloc-ms0.TotalAlloc > 1<<30 {
+					rec.Violation("roundtrip/"+dec+"/no-return", fmt.Sprintf("%s: decoding the encoder's own output did not return within %v (allocated %d MiB so far); round trip %d of the run", c26TypeName(dec), time.Since(t0).Round(time.Second), (ms.TotalAlloc-ms0.TotalAlloc)>>20, i),
+						map[string]any{"decoder": dec, "roundtrip_index": i, "seed": rec.Seed})
+					rec.Note("stopped_early", "a round trip does not return: the rest of the check is not run")
+					rec.Done()
+					os.Exit(0)
+				}
+			}
+		}
 		if p {
 			class, detail = "panic/"+kit.PanicSite(stack)+"/"+kit.MsgClass(msg), msg+"\n"+stack
 		}
